@@ -178,7 +178,13 @@ class RemoveImportsTransformer(CSTTransformer):
             module_name = name.evaluated_name
             found = False
             for import_item in self.import_items_to_be_removed:
-                if import_item.module_name == module_name:
+                # Only a plain `import module [as alias]` item matches here, not
+                # a `from module import name` item of the same module.
+                if (
+                    import_item.module_name == module_name
+                    and import_item.obj_name is None
+                    and import_item.alias == name.evaluated_alias
+                ):
                     found = True
                     break
             if not found:
@@ -206,6 +212,7 @@ class RemoveImportsTransformer(CSTTransformer):
                 if (
                     import_item.module_name == module_name
                     and import_item.obj_name == name_value
+                    and import_item.alias == name.evaluated_alias
                 ):
                     found = True
                     break
